@@ -176,6 +176,23 @@ func ruleR38(c *Ctx) *RuleResult {
 						} else if a.Args[0].String() == "p:1" {
 							el = a.Args[1]
 						}
+						if el != nil && el.Op == "load" && el.Args[0].Op == "fa" && el.Args[0].Leaf == "value" && len(el.Args[0].Args) == 1 && el.Args[0].Args[0].Op == "φ" && g.From > 0 {
+							// a counted walk over the chain: the matched node's position is counter + d by the walk invariant (R33)
+							x := el.Args[0].Args[0]
+							w, wbad, _ := analyseWalk(gc, g.From, map[string]lin{})
+							pre := itoa(g.From) + "."
+							if len(wbad) == 0 && w.offsets != nil && strings.HasPrefix(x.Leaf, pre) {
+								if d, ok := w.offsets[atoiOr(x.Leaf[len(pre):], -1)]; ok {
+									matched = true
+									n++
+									want := linAtom("φ:" + pre + itoa(w.cslot)).add(d, 1)
+									if got := linOf(res); got.String() != want.String() {
+										bad = append(bad, fmt.Sprintf("the match at position %s is reported as %s", want.String(), trunc(noEpoch(res), 60)))
+									}
+								}
+							}
+							continue
+						}
 						if el == nil || el.Op != "load" || el.Args[0].Op != "ia" {
 							continue
 						}
